@@ -262,7 +262,7 @@ pub fn run(ctx: &mut Ctx) {
             ctx.out.stat(&format!("c01.large.V{}", ver + 1));
             let mut a = match Archive::open(&path) { Ok(a) => a, Err(e) => { ctx.out.oracle(false, "built-archive-does-not-open", &format!("{desc}: {e}")); continue; } };
             for f in &files {
-                match std::panic::catch_unwind(std::panic::AssertUnwindSafe(|| a.read_file(&f.name.to_uppercase().replace('\\', "/")))) {
+                match std::panic::catch_unwind(std::panic::AssertUnwindSafe(|| a.read_file(&f.name.to_ascii_uppercase().replace('\\', "/")))) {
                     Err(_) => ctx.out.oracle(false, "read-panics", &format!("{desc} file={}", f.name)),
                     Ok(Ok(d)) => { let ok = d == f.data; ctx.out.oracle(ok, "roundtrip-differs-large", &format!("{desc} file={}: got {} bytes", f.name, d.len())); if ok { ctx.out.nontrivial(desc.as_bytes()); } }
                     Ok(Err(e)) => ctx.out.oracle(false, "read-error-large", &format!("{desc} file={}: {e}", f.name)),
